@@ -509,10 +509,15 @@ fn explore_cmd(args: &[String]) -> Value {
     let mut last_good_ns: Option<i128> = None;
     let (mut asks, mut trusted, mut restarts, mut outages, mut neg_off) = (0u64, 0u64, 0u64, 0u64, 0u64);
     let mut samples = vec![];
+    let mut min_margin: i128 = i128::MAX;
+    // tight mode: after an exactly representable report without slack the oscillator drifts at the full configured
+    // rate away from zero until the next synchronised report, so that true time sits on the edge of every interval
+    let tight_dir = std::cell::Cell::new(0i128);
     let advance = |rng: &mut StdRng, now_ns: &mut i128, err_ns: &mut i128, d_ns: i128| {
         // drift anywhere within +-DRIFT_PPB over d_ns, biased to the extremes
         let max = d_ns * DRIFT_PPB as i128 / G;
         let dr = match rng.gen_range(0..4) {
+            _ if tight_dir.get() != 0 => tight_dir.get() * max,
             0 => max,
             1 => -max,
             _ => rng.gen_range(-max..=max),
@@ -534,13 +539,21 @@ fn explore_cmd(args: &[String]) -> Value {
         // --- one poller iteration, with scheduling delays between its steps
         let t_first = now_ns;
         let err_first = err_ns;
-        let d1 = [0, 1_000_000, 10_000_000, 300_000_000, 2 * G][rng.gen_range(0..5)];
+        let tight = rng.gen_range(0..4) == 0;
+        let d1 = if tight { 0 } else { [0, 1_000_000, 10_000_000, 300_000_000, 2 * G][rng.gen_range(0..5)] };
+        if tight {
+            // chronyd has just corrected the clock: the error is now a multiple of 2^-9 s (exact on the wire and in
+            // ns), not larger in magnitude than before (a client may still be served the previous record)
+            let mmax = err_ns.abs() / 1_953_125;
+            let m = if mmax == 0 { 0 } else { rng.gen_range(0..=mmax.min(4)) };
+            err_ns = if rng.gen_bool(0.5) { m } else { -m } * 1_953_125;
+        }
         advance(&mut rng, &mut now_ns, &mut err_ns, d1);
         let t_second = now_ns;
         // chronyd's report is valid at the instant of the query: the second event in the code's order (clock
         // read, then query), the first one if the code queries first
         let err_at_reply = if po == "mono_first" { err_ns } else { err_first };
-        let kind = rng.gen_range(0..10);
+        let kind = if tight { 9 } else { rng.gen_range(0..10) };
         let mut in_outage = false;
         let reply = match kind {
             0 | 1 => {
@@ -551,7 +564,16 @@ fn explore_cmd(args: &[String]) -> Value {
             2 => Some(tracking(3, SystemTime::now(), cf(12345, -30), cf(999, -20))), // unsynchronised: garbage values
             3 => Some(tracking(0, SystemTime::now() - Duration::from_secs(10_000), cf(0, -30), cf(1, -30))), // stale
             4 => Some(tracking(77, SystemTime::now(), cf(0, -30), cf(0, -30))), // unusable
+            _ if tight => {
+                tight_dir.set(if err_at_reply < 0 { -1 } else { 1 });
+                let m = (err_at_reply.abs() / 1_953_125) as i32;
+                if err_at_reply < 0 {
+                    neg_off += 1;
+                }
+                Some(tracking(rng.gen_range(0..3), SystemTime::now(), cf(if err_at_reply < 0 { -m } else { m }, -9), cf(0, -30)))
+            }
             _ => {
+                tight_dir.set(0);
                 // valid synchronised report: |err| <= |off| + disp (+ delay/2 = 0), split at random, offset sign = sign of err
                 let slack = rng.gen_range(0..50_000);
                 let total = err_at_reply.abs() + slack;
@@ -565,7 +587,7 @@ fn explore_cmd(args: &[String]) -> Value {
         if reply.is_some() {
             last_good_ns = Some(if po == "mono_first" { t_second } else { t_first });
         }
-        if kind >= 5 && rng.gen_range(0..3) == 0 {
+        if kind >= 5 && !tight && rng.gen_range(0..3) == 0 {
             // chronyd corrects the clock after reporting: the error changes sign and does not grow
             err_ns = -err_ns * rng.gen_range(0..100) / 100;
         }
@@ -613,6 +635,7 @@ fn explore_cmd(args: &[String]) -> Value {
                     let truth = T0 * G + rnow;
                     if stc != 0 {
                         trusted += 1;
+                        min_margin = min_margin.min((truth - earliest).min(latest - truth));
                         if samples.len() < 3 {
                             samples.push(json!({"at_ns": rnow.to_string(), "clock_error_ns": rerr.to_string(), "status": stc, "half_width_ns": ((latest - earliest) / 2).to_string()}));
                         }
@@ -640,7 +663,7 @@ fn explore_cmd(args: &[String]) -> Value {
             break;
         }
     }
-    json!({"polls": polls, "asks": asks, "trusted_intervals": trusted, "restarts": restarts, "outages": outages, "negative_offsets": neg_off,
+    json!({"polls": polls, "asks": asks, "min_margin_ns": min_margin.to_string(), "trusted_intervals": trusted, "restarts": restarts, "outages": outages, "negative_offsets": neg_off,
            "samples": samples, "violations": violations})
 }
 
